@@ -6,11 +6,11 @@ from .xyb import check_c05
 
 def run(tier):
     ck = Check('C05', tier, 'proof', 'abstract interpretation of MIR of forward followed by inverse (cbrtf kept as an application); polynomial identity c^3 = mix with exact rational matrix product INV*A and a-priori rounding bounds')
-    for b in (('K1',) if tier == 'quick' else ('K1', 'K2')):
+    for b in ('K1', 'K2'):          # default and FMA build (the opsin code has its own fused multiply-adds)
         try:
             check_c05(ck, Ctx(b), b, tier)
         except Unsupported as ex:
             ck.ob(f"C05/{b}", 'UNDECIDED', f"analysis lost: {ex}")
-    ck.floor('kernels', 1)
-    ck.assumptions += ['A-cbrt: yuvxyb_math::cbrtf within 1 ulp on normal arguments']
+    ck.floor('kernels', 2)
+    ck.assumptions += ['A-cbrt: yuvxyb_math::cbrtf within 1 ulp on normal arguments (decided by C18)']
     return ck.finish()
